@@ -77,6 +77,16 @@ and run1 (toks : string list) (cout : string list) : string =
        (match split_bar cout with
         | [[s1; s2; bits; s3; cval]; post; [pafter]] ->
           let exp_s = sg s in
+          let all_rat = List.for_all (fun (_, r) -> match r with RQ _ -> true | _ -> false) vlist
+                        && Array.for_all (fun t -> t = "none" || (t.[0] = 'z' || t.[0] = 'd' || t.[0] = 'q')) vals in
+          let model_numeric =
+            if not all_rat then None else
+            let order = List.rev (List.map (fun c -> n_of_int (Char.code c - 48)) (List.init n (String.get perm))) in
+            let mm (x : n) = let i = int_of_n x in if i < Array.length vals then rat_of_value_token vals.(i) else None in
+            Some (coef_sgn_numeric order mm p) in
+          if (match model_numeric with Some None -> true | _ -> false) then "CHECK fail: model coef_sgn_numeric took no numeric exit on a rational assignment"
+          else if (match model_numeric with Some (Some ms) -> sg ms <> s1 | _ -> false) then "CHECK fail: model coef_sgn_numeric disagrees with lp_polynomial_sgn = " ^ s1
+          else
           if s1 <> exp_s then "CHECK fail: lp_polynomial_sgn = " ^ s1 ^ ", sign of the exact value " ^ string_of_rnum v ^ " is " ^ exp_s
           else if s2 <> exp_s then "CHECK fail: lp_assignment_sgn = " ^ s2 ^ ", expected " ^ exp_s
           else if s3 <> exp_s then "CHECK fail: second lp_polynomial_sgn = " ^ s3 ^ ", expected " ^ exp_s
@@ -120,6 +130,38 @@ and run1 (toks : string list) (cout : string list) : string =
       if i < Array.length vals then rat_of_value_token vals.(i) else None in
     let (c, mult) = eval_rat order m p in
     string_of_mpoly c ^ " " ^ string_of_z mult
+  | "va" :: perm :: ps :: vals ->
+    (* coefficient_value_approx: the model (C15 interval arithmetic, same aliasing) on the intervals the C side printed *)
+    let n = String.length perm in
+    let p = mpoly_of_string ps in
+    let order = List.rev (List.map (fun c -> n_of_int (Char.code c - 48)) (List.init n (String.get perm))) in
+    let parse_ri tok =
+      match String.split_on_char ':' tok with
+      | [a; b; ao; bo; pt] -> { ia = rat_of_q_string a; ib = rat_of_q_string b; ia_open = (ao = "1"); ib_open = (bo = "1"); ipt = (pt = "1") }
+      | _ -> failwith "bad interval" in
+    let str_ri i =
+      let q (r : z * z) = string_of_z (fst r) ^ "/" ^ string_of_z (snd r) in
+      q i.ia ^ ":" ^ (if i.ipt then "0/1" else q i.ib) ^ ":" ^ string_of_bool01 i.ia_open ^ ":" ^ string_of_bool01 i.ib_open ^ ":" ^ string_of_bool01 i.ipt in
+    (match split_bar cout with
+     | [ivs; [res]] when List.length ivs = n ->
+       let ivs = Array.of_list ivs in
+       let m (x : n) = let i = int_of_n x in if i < n && ivs.(i) <> "none" then parse_ri ivs.(i) else ri_zero in
+       (* the intervals of the variables must contain the assigned values *)
+       let bad = ref "" in
+       List.iteri (fun i t ->
+         if !bad = "" && t <> "none" && ivs.(i) <> "none" then begin
+           let iv = parse_ri ivs.(i) and v = rnum_of_token t in
+           let inside =
+             if iv.ipt then sgn_of_z (rn_cmp_q v iv.ia) = 0
+             else (let c = sgn_of_z (rn_cmp_q v iv.ia) in c > 0 || (c = 0 && not iv.ia_open))
+                  && (let c = sgn_of_z (rn_cmp_q v iv.ib) in c < 0 || (c = 0 && not iv.ib_open)) in
+           if not inside then bad := "interval of x" ^ string_of_int i ^ " does not contain its value"
+         end) (take n vals);
+       if !bad <> "" then "CHECK fail: " ^ !bad
+       else
+         let mine = str_ri (value_approx order m p) in
+         if mine = res then "CHECK ok" else "CHECK fail: coefficient_value_approx = " ^ res ^ ", model " ^ mine
+     | _ -> "CHECK fail: malformed output")
   | ["rlb"; cs] -> string_of_z (root_lower_bound (upoly_of_string cs))
   | ["sc"; c; s] -> string_of_bool01 (sc_consistent (sc_of_N (n_of_string c)) (z_of_string s))
   | _ -> "UNKNOWN-OP"
